@@ -48,11 +48,12 @@ CLAIM = (
     "field += -= *= /=, set_flattened and v[field] = values, add_fields, remove_fields incl. missing names and all-but-one, "
     "copy and mutations of the copy, mutations of an independently created Vector, metadata writes, rejected wrong-width "
     "assignments and duplicate field names) up to depth 3 (quick) or 4 (thorough, on one initial state per dimensionality "
-    "plus from_data) from 18 initial states (from_shape for (2,), (3,), (2,2), (2,3), (2,2,2) x 1..3 fields, from_data with "
-    "ragged rows incl. zero-row cells) is executed on the real class; after every transition the main Vector, the copy "
+    "plus from_data) from 22 initial states (from_shape for (2,), (3,), (2,2), (2,3), (2,2,2) x 1..3 fields, from_data with "
+    "ragged rows incl. zero-row cells, and four Vectors with exactly one populated cell: shapes (1,), (1,1), (1,1,1), (2,2)) is executed on the real class; after every transition the main Vector, the copy "
     "and the independent Vector equal a pure-Python reference model cell by cell (exact), and in every new state every "
     "populated cell is 2-D with num_fields columns, fields are unique and 1:1 with units, v[f].flatten() and v.flatten() "
-    "are the row-major concatenation over all cells, writing a flattened field back changes nothing, and slicing / get_data "
+    "are the row-major concatenation over all cells and independent snapshots (no memory shared with a cell; kept across "
+    "every in-place field operation and written back they restore the data), writing a flattened field back changes nothing, and slicing / get_data "
     "return exactly the addressed cells for 1, 2 and 3 fixed dimensions. Model checking is the right level because the "
     "property quantifies over all operation histories of a small state machine."
 )
@@ -133,6 +134,12 @@ INITS = [("shape", s, nf) for s in SHAPES for nf in (1, 2, 3)] + [
     ("data", (2, 0, 3), 2),  # ragged rows with a zero-row cell, ndarray input, explicit fields + units
     ("data", (1, 3), 1),  # list-of-lists input, num_fields only
     ("data", (0, 1, 1), 3),  # zero-row FIRST cell, explicit fields, default units
+    # exactly ONE populated cell (3 rows): single-cell shapes with 1, 2, 3 fixed dimensions, and a (2,2) Vector whose
+    # other three cells are unset — the case in which "concatenate over all cells" degenerates to a single array
+    ("one", (1,), 2),
+    ("one", (1, 1), 1),
+    ("one", (1, 1, 1), 2),
+    ("one", (2, 2), 2),
 ]
 # initial states explored to the larger depth in thorough: one per dimensionality + from_data
 DEEP_INITS = [("shape", (3,), 2), ("shape", (2, 2), 1), ("shape", (2, 2, 2), 1), ("data", (2, 0, 3), 2)]
@@ -358,6 +365,7 @@ def events_for(shape):
     ev += [("setd", "first", 1), ("setd", "last", 3)]
     ev += [("arith", "add", "f0"), ("arith", "sub", "flast"), ("arith", "mul", "flast"), ("arith", "div", "f0")]
     ev += [("setflat", "f0"), ("setfield", "flast")]
+    ev += [("flat_rt", "mul", "f0"), ("flat_rt", "sub", "flast")]  # flatten, change the field in place, write the saved array back
     ev += [("add", "g"), ("add", "hi"), ("add_existing",), ("add_dupinput",)]
     ev += [("rm", k) for k in ("first", "last", "missing", "all_but_last", "all_but_first", "first_and_missing")]
     for a in range(nd):
@@ -424,7 +432,12 @@ def enabled(ev, S):
         return m.nf >= 2  # never remove every field
     if k == "asg_vec_self":
         _, _, _, src_cells = vec_self_exprs(m.shape)
-        return all(m.get(c) is not None for c in src_cells)
+        return m.shape[0] >= 2 and all(m.get(c) is not None for c in src_cells)
+    if k in ("setd_slice", "setd_list"):
+        # set_data treats an index that addresses ONE cell as a single-cell assignment (wants a bare array): keep the
+        # list form to selections of >= 2 positions
+        member = "s02" if k == "setd_slice" else "lL0"
+        return len(member_positions(member, m.shape[ev[1]])) >= 2
     if k == "asg_vec_w":
         first = m.cells()[0]
         return S.mw.get(first) is not None and S.mw.nf == m.nf
@@ -439,6 +452,34 @@ def enabled(ev, S):
     if k == "w_add":
         return "zw" not in S.mw.fields
     return True
+
+
+def take_flat(v, m):
+    """What a caller keeps: v[f].flatten() for every field and v.flatten(), each with the model's value at that moment."""
+    kept = [(f"v[{f!r}].flatten()", v[f].flatten(), m.column(fi)) for fi, f in enumerate(m.fields)]
+    kept.append(("v.flatten()", v.flatten(), m.stacked()))
+    return kept
+
+
+def check_kept(kept, S):
+    """Arrays returned by flatten() earlier are snapshots: still bitwise what they were, and no window onto any cell
+    of the main / copy / independent Vector. Returns None or (relation, message)."""
+    cells = []
+    for who, vec, mod in S.triple():
+        if vec is not None:
+            cells += [(who, c, a) for c, a in zip(mod.cells(), read_cells(vec, mod.shape, mod.cells())) if isinstance(a, np.ndarray)]
+    for label, got, exp in kept:
+        if not isinstance(got, np.ndarray):
+            continue  # judged by the flatten observers
+        if got.shape != exp.shape or got.tobytes() != np.ascontiguousarray(exp).tobytes():
+            return ("flatten_returns_independent_copy", f"the array returned earlier by {label} changed under a later operation on the Vector: now {got.tolist()!r}, it was {exp.tolist()!r}")
+        for who, c, a in cells:
+            if np.shares_memory(got, a):
+                return ("flatten_returns_independent_copy", f"the array returned by {label} shares memory with cell {c} of the {who} Vector")
+    return None
+
+
+KEEP_EVENTS = ("arith", "setflat", "setfield")  # the events that write into existing cell arrays in place
 
 
 def quiet_remove(vec, names):
@@ -458,6 +499,7 @@ def apply_event(S, ev, T, F):
     nf = m.nf
     shape = m.shape
     must_raise = False
+    problem = None
     try:
         if k in ("set", "setd"):
             c = cells[0] if ev[1] == "first" else cells[-1]
@@ -480,6 +522,18 @@ def apply_event(S, ev, T, F):
             else:
                 v[f] /= operand
             m.arith(fi, ev[1], operand)
+        elif k == "flat_rt":
+            # keep what flatten() returned, change the field in place, write the kept array back: the data are restored
+            # (the model does not move), and the kept arrays are still what they were and share no memory with a cell
+            fi = 0 if ev[2] == "f0" else nf - 1
+            f = m.fields[fi]
+            kept = take_flat(v, m)
+            if ev[1] == "mul":
+                v[f] *= 3
+            else:
+                v[f] -= 0.5
+            problem = check_kept(kept, S)
+            v[f].set_flattened(kept[fi][1])
         elif k == "setflat":
             vals = np.array(F[0, : m.total_rows()], copy=True)
             v[m.fields[0]].set_flattened(vals)
@@ -617,7 +671,7 @@ def apply_event(S, ev, T, F):
         return ("legitimate_operation_raised", f"{describe(ev, shape)} raised {type(e).__name__}: {str(e)[:160]}")
     if must_raise:
         return ("invalid_operation_rejected", f"{describe(ev, shape)} was accepted (the property needs it rejected: cell width / unique field names)")
-    return None
+    return problem
 
 
 def describe(ev, shape):
@@ -816,6 +870,14 @@ def observe(S, tier, fails, counts):
                 fails.append(("field_flatten_is_row_major_concatenation", f"v[{f!r}].flatten() = {show(got)}, model says {exp.tolist()}", {"observer": "field_flatten"}))
         except Exception as e:
             fails.append(("field_flatten_is_row_major_concatenation", f"v[{f!r}].flatten() raised {type(e).__name__}: {str(e)[:120]}", {"observer": "field_flatten"}))
+    # what flatten() returns is a snapshot, not a window onto the Vector's storage
+    try:
+        p = check_kept(take_flat(v, m), S)
+        counts["obs_flatten_independent"] += 1
+        if p:
+            fails.append((p[0], p[1], {"observer": "flatten_independent", "populated_cells": len(m.populated())}))
+    except Exception:
+        pass  # a raising flatten is reported above
     # every cell through v[int index] (the hot-path comparison reads the cells through the `data` property)
     if tier != "mini":
         for c in m.cells():
@@ -933,7 +995,22 @@ def build_init(spec, seed):
     Vector.from_shape((1,), num_fields=1).metadata.clear()
     S = State()
     S.c, S.mc = None, None
-    if kind == "shape":
+    if kind == "one":
+        shape = tuple(a)
+        cell = (0, 1) if shape == (2, 2) else (0,) * len(shape)
+
+        def mk1(vid):
+            if nf == 1:
+                vec, mod = Vector.from_shape(shape, num_fields=1), Model(shape, ["field_0"], ["none"])
+            else:
+                vec, mod = Vector.from_shape(shape=shape, fields=FIELDS[:nf], units=UNITS[:nf]), Model(shape, FIELDS[:nf], UNITS[:nf])
+            vec[cell_idx(cell)] = val(T, vid, 3, nf)
+            mod.put(cell, val(T, vid, 3, nf))
+            return vec, mod
+
+        S.v, S.mv = mk1(VID_INIT_V)
+        S.w, S.mw = mk1(VID_INIT_W)
+    elif kind == "shape":
         shape = tuple(a)
 
         def mk():
@@ -999,7 +1076,19 @@ def step(S, ev, seed, hist, spec, t, counts, obs_tier, pre_share):
     shape = S.mv.shape
     case = {"init": list(spec), "history": [list(e) for e in hist]}
     where = f"init {spec!r} after {[tuple(e) for e in hist]!r}"
+    kept = None
+    if ev[0] in KEEP_EVENTS:
+        try:
+            kept = take_flat(S.v, S.mv)
+        except Exception:
+            kept = None  # a failing flatten is reported by the observers of the pre-state
     imm = apply_event(S, ev, T, F)
+    if kept is not None and imm is None:
+        try:
+            imm = check_kept(kept, S)
+            counts["kept_flatten_checks"] += 1
+        except Exception as e:
+            imm = ("readable", f"reading the cells after {ev!r} raised {type(e).__name__}: {str(e)[:120]}")
     # the byte cache of a model may only ever serve the objects the event did NOT address
     tgt = target_of(ev)
     for who, vec, m in S.triple():
@@ -1080,7 +1169,7 @@ def packed(keys):
 
 
 def shape_of(spec):
-    return tuple(spec[1]) if spec[0] == "shape" else (len(spec[1]),)
+    return tuple(spec[1]) if spec[0] in ("shape", "one") else (len(spec[1]),)
 
 
 def expand_one(blob, mv, mc, mw, share, hist, EV, seed, spec, t, counts):
@@ -1219,6 +1308,7 @@ def dev_chunk(item, seed=0):
         share = "none"
         done = []
         ok = True
+        kept, kept_at = None, None
         for ev in hist:
             if not enabled(ev, S):
                 counts["dev_disabled_skipped"] += 1
@@ -1233,6 +1323,23 @@ def dev_chunk(item, seed=0):
                 break
             share = sh2
             states.add(k2)
+            # arrays kept from the first state with data are re-checked after EVERY later event of the history
+            # (one live object all the way: sharing with the Vector's storage cannot be lost to cloning)
+            try:
+                if kept is None:
+                    if S.mv.total_rows() > 0:
+                        kept = take_flat(S.v, S.mv)
+                else:
+                    p = check_kept(kept, S)
+                    counts["kept_flatten_checks"] += 1
+                    if p:
+                        t.fail(mk_cls(p[0], ev, shape, share, {"kept_across_history": True}), {"init": list(spec), "history": [list(e) for e in done], "kept_after": kept_at}, f"init {spec!r} after {done!r}, arrays kept after step {kept_at}: {p[1]}")
+                        ok = False
+                        break
+                if kept is not None and kept_at is None:
+                    kept_at = len(done)
+            except Exception:
+                pass
         counts["dev_histories"] += 1
         if ok:
             counts["reached_depth_%d" % len(done)] += 1
@@ -1396,6 +1503,24 @@ def replay(ctx, case):
     spec = (spec[0], tuple(spec[1]), spec[2])
     hist = [tuple(e) for e in case["history"]]
     t = ctx.tally
+    if case.get("kept_after") is not None:
+        # arrays kept from flatten() after step `kept_after`, re-checked after every later event on ONE live object
+        S = build_init(spec, ctx.seed)
+        share, kept = "none", None
+        for i, ev in enumerate(hist):
+            good, k2, sh2 = step(S, ev, ctx.seed, hist[: i + 1], spec, t, t.extra, None, share)
+            if not good:
+                break
+            share = sh2
+            if kept is None and i + 1 >= case["kept_after"] and S.mv.total_rows() > 0:
+                kept = take_flat(S.v, S.mv)
+            elif kept is not None:
+                p = check_kept(kept, S)
+                if p:
+                    ctx.fail(mk_cls(p[0], ev, S.mv.shape, share, {"kept_across_history": True}), case, f"init {spec!r} after {hist[: i + 1]!r}, arrays kept after step {case['kept_after']}: {p[1]}")
+                    break
+        print(f"  init {spec!r}, history {hist!r}, flatten() results kept after step {case['kept_after']}")
+        return
     S, key, share, ok = run_history(spec, hist, ctx.seed, t, t.extra, stop_on_fail=True)
     print(f"  init {spec!r}, history {hist!r}")
     if ok:
